@@ -7,8 +7,9 @@ NOTE_T = ("Trusted: TLC 1.8.0 + CommunityModules Json; rustc/cargo; the ~400-lin
           "statement. Positions are enumerated/sampled as stated in the evidence (not all positions); no 64-bit hash collision among visited positions.")
 
 CHECKS = {
- "C01": ("TLC model checking of the rules spec (constructive vs declarative legal-turn definition, push completability) + trace validation of "
-         "engine-recorded games and TLC-generated behaviours against ArimaaTrace.tla: rule-only list = RuleActions at every event",
+ "C01": ("TLC: rules spec on 2x2/3x3 models; constructive RuleMoves/NextPP = declarative labelled-turn definition (ArimaaTurns) on 3x3 and sparse 8x8 roots; README's 2467 first moves "
+         "counted on the spec. Conformance both ways: engine traces (8 drivers incl. two-ply focus and edge-wrap families) and TLC-generated behaviours on the real geometry "
+         "(scenarios, pattern roots, diagrams, TLC-found witnesses) validated by ArimaaTrace.tla: rule-only list = RuleActions at every event",
          "6.C01", "TLA+ spec + TLC; trace validation of engine logs (impl->spec) and replay of TLC behaviours (spec->impl)"),
  "C02": ("Every recorded transition is judged against the declarative step effect C02Effect (one piece, one square, unsupported trap pieces removed, "
          "nothing else); TLC checks the same action property on micro/mini models", "6.C02", "TLA+ action property + trace validation"),
@@ -16,11 +17,12 @@ CHECKS = {
          "6.C03", "TLA+ invariants/action property + trace validation"),
  "C04": ("is_terminal of every recorded state equals the spec's Result order evaluated on the logged board; includes mid-turn and setup clauses",
          "6.C04", "TLA+ Result operator + trace validation"),
- "C05": ("Ghost history of exact boards maintained by the trace spec; every offered turn end is checked for changed board and <= 2 occurrences; TLC proves "
-         "NoThird/Changed on micro boards over whole games", "6.C05", "TLA+ invariant over ghost history + trace validation"),
+ "C05": ("Ghost history of exact boards maintained by the trace spec; every offered turn end is checked for changed board and <= 2 occurrences (confined steered games, region "
+         "scenarios explored by TLC to 10 turns, TLC-found witnesses of rare all-withheld states); TLC proves NoThird/Changed on micro boards over whole games", "6.C05", "TLA+ invariant over ghost history + trace validation"),
  "C06": ("Offered list = rule-only list minus Withheld (exact boards, never-truncated ghost history), same order, at every event; TLC proves OfferedImpl = Offered "
          "(truncation at captures is harmless) on micro/mini models", "6.C06", "TLA+ refinement invariant + trace validation"),
- "C07": ("Relations between is_terminal, has_move, can_pass(true/false) and both action lists checked at every event; TLC checks the spec-level relations",
+ "C07": ("Relations between is_terminal, has_move, can_pass(true/false) and both action lists checked at every event, including TLC-found witnesses (count-based VIEW, never-invariants) "
+         "for every branch of the has-move cascade: all withheld, pull-only, push-only, blocked pending push; TLC checks the spec-level relations",
          "6.C07", "TLA+ invariants + trace validation"),
  "C08": ("transposition_hash = from-scratch hash (public constructors, rebuilt bitboards) at every event; recorded hash history = hashes observed at those turn starts; "
          "eq/std-hash equality with an independently built state", "6.C08", "trace validation against ghost history of hashes"),
